@@ -1,9 +1,17 @@
 /-
   Line protocol of the MD3 model.
 
-    new md3 <sens> <oracleLen|_> <ncols> <col…> <len> <md> <mdStd> <acc> <accStd>
+    new md3 <sens> <oracleLen|_> <ncols> <col…> <ref>
     <d> u <rows> <inMargin>
-    <d> l <rows> <correct> <ncols> <col…> <len> <md> <mdStd> <acc> <accStd>
+    <d> l <rows> <correct> <ncols> <col…> <ref>
+    <d> show                                 prints the state after the first d calls, changes nothing
+
+  where `<ref>` describes the batch `set_reference` is (or would be) called with, in one of two forms:
+    <len> <md> <mdStd> <acc> <accStd>      ready-made statistics (oracle form, Model/MD3.lean `step`)
+    F <k> <fold_1> … <fold_k>              the k-fold bit lists; the statistics are computed by
+                                           Model/MD3Ref.lean (`initF` / `stepF` / `refStats`).
+  A fold is one token with one digit per test sample, `2*inMargin + correct` (0…3), in the order of
+  KFold's `test_index`; `-` is the empty fold.
 
   The machine keeps the states of the current call sequence as a stack; `<d>` says
   that the call is applied to the state reached after the first `d` calls of the
@@ -16,6 +24,7 @@
 -/
 import MenelausVerif.Driver.Core
 import MenelausVerif.Model.MD3
+import MenelausVerif.Model.MD3Ref
 namespace MV.Driver
 open MV MV.MD3
 
@@ -30,6 +39,24 @@ private def parseRef? : List String → Option (Ref Float)
       some { len := len, md := md, mdStd := mdStd, acc := acc, accStd := accStd }
     | _, _, _, _, _ => none
   | _ => none
+
+private def parseSample? : Char → Option Sample
+  | '0' => some (false, false)
+  | '1' => some (false, true)
+  | '2' => some (true, false)
+  | '3' => some (true, true)
+  | _ => none
+
+private def parseFold? (t : String) : Option Fold :=
+  if t = "-" then some [] else if t.isEmpty then none else t.toList.mapM parseSample?
+
+/-- either form of `<ref>` -/
+private def parseRefOrFolds? : List String → Option (Sum (Ref Float) (List Fold))
+  | "F" :: k :: folds =>
+    match k.toNat? with
+    | some k => if folds.length ≠ k then none else (folds.mapM parseFold?).map Sum.inr
+    | none => none
+  | ts => (parseRef? ts).map Sum.inl
 
 /-- `<ncols> <col…> rest` -/
 private def parseCols? : List String → Option (List Nat × List String)
@@ -60,23 +87,30 @@ private def md3Show (o : Outcome) (s : State Float) : String :=
     toString s.ref.len, showFloat s.ref.md, showFloat s.ref.mdStd, showFloat s.ref.acc,
     showFloat s.ref.accStd]
 
-private def md3Apply (m : MD3M) (d : Nat) (op : Op Float) : Option (String × MD3M) :=
+private def md3Apply (m : MD3M) (d : Nat) (op : Sum (Op Float) OpF) : Option (String × MD3M) :=
   match m.stack[d]? with
   | some s =>
-    let (s', o) := step m.c s op
+    let (s', o) := match op with
+      | .inl op => step m.c s op
+      | .inr op => stepF m.c s op
     some (md3Show o s', { m with stack := (m.stack.extract 0 (d + 1)).push s' })
   | none => none
 
 private def md3Step (m : MD3M) : List String → Option (String × MD3M)
+  | [d, "show"] =>
+    match d.toNat? with
+    | some d => (m.stack[d]?).map (fun s => (md3Show .accepted s, m))
+    | none => none
   | [d, "u", rows, sig] =>
     match d.toNat?, rows.toNat?, parseBool? sig with
-    | some d, some rows, some sig => md3Apply m d (.update rows sig)
+    | some d, some rows, some sig => md3Apply m d (.inl (.update rows sig))
     | _, _, _ => none
   | d :: "l" :: rows :: correct :: rest =>
     match d.toNat?, rows.toNat?, parseBool? correct, parseCols? rest with
     | some d, some rows, some correct, some (cols, rest) =>
-      match parseRef? rest with
-      | some r => md3Apply m d (.label rows cols correct r)
+      match parseRefOrFolds? rest with
+      | some (.inl r) => md3Apply m d (.inl (.label rows cols correct r))
+      | some (.inr folds) => md3Apply m d (.inr (.label rows cols correct folds))
       | none => none
     | _, _, _, _ => none
   | _ => none
@@ -88,10 +122,10 @@ def mkMD3 : List String → Option Machine
   | "md3" :: sens :: olen :: rest =>
     match parseFloat? sens, parseOptNat? olen, parseCols? rest with
     | some sens, some olen, some (cols, rest) =>
-      match parseRef? rest with
-      | some r =>
-        let c : Cfg Float := { sens := sens, oracleLen := olen, refCols := cols }
-        some { σ := MD3M, s := { c := c, stack := #[init c r] }, step := md3Step }
+      let c : Cfg Float := { sens := sens, oracleLen := olen, refCols := cols }
+      match parseRefOrFolds? rest with
+      | some (.inl r) => some { σ := MD3M, s := { c := c, stack := #[init c r] }, step := md3Step }
+      | some (.inr folds) => some { σ := MD3M, s := { c := c, stack := #[initF c folds] }, step := md3Step }
       | none => none
     | _, _, _ => none
   | _ => none
